@@ -2,6 +2,9 @@
 props/c15.py with the JASPAR / JASPAR16 / UniPROBE group."""
 
 
+from translate import transfac_reader
+
+
 def _fields(line):
     return dict(t.split("=", 1) for t in line.split(" ")[1:] if "=" in t)
 
@@ -54,6 +57,11 @@ def _hist_c15(line):
     d = f.get("data", "")
     n = len(d) // 2
     keys = ["alpha=" + f.get("alpha", "?"), "bytes<=%d" % (0 if n == 0 else 16 if n <= 16 else 128 if n <= 128 else 1024 if n <= 1024 else 100000)]
+    keys.append("polls-after-first-error-or-end=" + f.get("post", "0"))
+    if f.get("evs"):
+        keys.append("io-fault-scripts=%d" % (f["evs"].count("/") + 1))
+        if "Ei" in f["evs"]:
+            keys.append("io-interrupted")
     try:
         b = bytes.fromhex(d)
         try:
@@ -93,6 +101,7 @@ C14_SPEC = dict(
     group="transfac",
     props_file="C14.v",
     module="LMTransfac.C14",
+    translate=transfac_reader.translate,
     harness_bin="transfac",
     harness_args=["c14"],
     driver_args=["c14"],
@@ -150,11 +159,12 @@ C15_SPEC = dict(
     group="transfac",
     props_file="C15.v",
     module="LMTransfac.C15",
+    translate=transfac_reader.translate,
     harness_bin="transfac",
     harness_args=["c15"],
     driver_args=["c15"],
     ml_modules=["transfac_model"],
-    n={"quick": 8000, "thorough": 100000},
+    n={"quick": 6500, "thorough": 100000},
     search_n={"quick": 10000, "thorough": 100000},
     nontrivial=_nontrivial_c15,
     histogram=_hist_c15,
